@@ -34,7 +34,7 @@ See `parse_template()` for details.
 
 import re
 from functools import lru_cache
-from typing import List, Optional, Tuple, Union
+from typing import Iterator, List, Optional, Tuple, Union
 
 from django.template.base import DebugLexer, Token, TokenType
 from django.template.exceptions import TemplateSyntaxError
@@ -78,9 +78,11 @@ def parse_template(text: str) -> List[Token]:
         # DebugLexer and Lexer have very similar speeds, Debug is about 33% slower.
         lexer = DebugLexer(text[index_start:index_end])
         lexer.verbatim = verbatim_state
-        tokens: List[Token] = lexer.tokenize()
 
-        for token in tokens:
+        # NOTE: The tokens are generated lazily. `DebugLexer.tokenize()` would tokenize the whole remaining text,
+        # of which we use only the part up to the first broken token. With many broken tokens the (discarded) rest
+        # of the text was tokenized over and over, which made the parsing time grow cubically in the worst case.
+        for token in _tokenize_lazily(lexer):
             token.lineno += lineno_offset
             token.position = (token.position[0] + index_start, token.position[1] + index_start)
 
@@ -112,6 +114,17 @@ def parse_template(text: str) -> List[Token]:
             break
 
     return resolved_tokens
+
+
+# Same as `DebugLexer.tokenize()`, but yields the tokens one by one
+def _tokenize_lazily(lexer: DebugLexer) -> Iterator[Token]:
+    in_tag = False
+    lineno = 1
+    for token_string, position in lexer._tag_re_split():
+        if token_string:
+            yield lexer.create_token(token_string, position, lineno, in_tag)
+            lineno += token_string.count("\n")
+        in_tag = not in_tag
 
 
 # Handle parsing of `{% %}` tags, while allowing `%}` inside of strings
